@@ -20,6 +20,11 @@ but FINGERPRINT after it, and STOPS SUCCESSFULLY at a FINGERPRINT, so anything b
 Peer messages for which the pre-scan finds no MESSAGE-INTEGRITY are dropped before decoding (repo commit f41aa68
 "fix: ICE accepts connectivity checks that carry no MESSAGE-INTEGRITY"); before that commit `decode` verified the attribute
 only when present and such messages were processed as authenticated.
+STUN-server discovery (`setStunServers` before `bind`): the component sends an unauthenticated Binding request per server and keeps
+the transactions in `stunTransactions`; a received STUN message whose transaction id is one of them is taken for the server's
+answer WHATEVER ITS SOURCE ADDRESS, decoded without key and without the MESSAGE-INTEGRITY pre-scan, and a success response adds a
+server-reflexive LOCAL candidate (`stunTx`, `localSrflx`, `reactServer`).  Not modelled: the TURN allocation (its relayed datagrams
+enter the same `handleDatagram` with another transport), several local transports, what `close()` does to transactions in flight.
 No proofs here.
 -/
 namespace Qx.C15
@@ -68,6 +73,8 @@ of it) under this component's LOCAL password; `validRemote` a correct HMAC under
 code that is correct under neither; `truncated` an attribute whose length is not 20. (Local and remote password are assumed
 different, and HMAC collisions are not modelled.) -/
 inductive MiSt | validLocal | validRemote | wrongKey | truncated
+  /-- a correct HMAC under a remote password that has since been REPLACED by `setRemotePassword` (assumed different from the current one) -/
+  | validOldRemote
   deriving DecidableEq, Repr
 
 /-- one attribute as the two walks see it -/
@@ -93,6 +100,8 @@ structure Stun where
   roleAttr : RoleAttr := .none
   priority : Nat := 0
   username : Nat := 0
+  /-- XOR-MAPPED-ADDRESS of a response (an address id), looked at only on the STUN-server path -/
+  mapped : Option Nat := none
   deriving DecidableEq, Repr
 
 inductive Kind
@@ -151,6 +160,9 @@ inductive Out
   | appData (payload : List UInt8)             -- signal `datagramReceived(payload)`
   | appSent (to : Nat) (payload : List UInt8)  -- `sendDatagram` wrote `payload` to `to`
   | appNoRoute                                 -- `sendDatagram` returned -1
+  | localCandidate (addr : Nat)                -- "Adding server-reflexive candidate …" + `localCandidatesChanged()`
+  | gatheringComplete                          -- gathering state becomes `complete`
+  | warnNoReflexive                            -- "STUN server did not provide a reflexive address"
   deriving DecidableEq, Repr
 
 structure St where
@@ -167,10 +179,16 @@ structure St where
   timerOn : Bool := false
   connectStarted : Bool := false
   nextTx : Nat := 0
+  /-- outstanding STUN-server discovery transactions (`stunTransactions`), ids 500, 501, … -/
+  stunTx : List Nat := []
+  /-- server-reflexive LOCAL candidates learned so far (address ids) -/
+  localSrflx : List Nat := []
+  /-- `close()` was called: the sockets are closed, nothing is received or routed any more -/
+  closed : Bool := false
   deriving DecidableEq, Repr
 
-def init (controlling : Bool) (component : Nat := 1) : St :=
-  { controlling := controlling, component := component }
+def init (controlling : Bool) (component : Nat := 1) (stunServers : Nat := 0) : St :=
+  { controlling := controlling, component := component, stunTx := (List.range stunServers).map (· + 500) }
 
 def St.prioOf (s : St) (p : Pair) : Nat := pairPriority s.controlling (localPriority s.component) p.rprio
 
@@ -280,6 +298,7 @@ def miCheck (keyRemote : Bool) : MiSt → Dec
   | .validLocal => if keyRemote then .badMi else .ok
   | .validRemote => if keyRemote then .ok else .badMi
   | .wrongKey => .badMi
+  | .validOldRemote => .badMi         -- the comparison is made with the CURRENT remote password
   | .truncated => .silent             -- `a_length != 20` ⇒ `return false` without a message
 
 /-- `hasMessageIntegrity(buffer)` in handleDatagram: true at the first MESSAGE-INTEGRITY, false at a FINGERPRINT met first or
@@ -339,8 +358,65 @@ def parsedPrio (cur : Nat) : List Attr → Nat
 def Stun.decoded (m : Stun) : Stun :=
   { m with useCandidate := m.useCandidate || parsedUc m.attrs, priority := parsedPrio m.priority m.attrs }
 
+/-- `decode(buffer, QByteArray())` — no key: a MESSAGE-INTEGRITY attribute is only checked for its length -/
+def decodeNoKey : Bool → List Attr → Dec
+  | _, [] => .ok
+  | _, .overrun :: _ => .truncAttr
+  | afterIntegrity, .mi st :: rest =>
+    if afterIntegrity then decodeNoKey true rest
+    else if st == .truncated then .silent else decodeNoKey true rest
+  | _, .fingerprint good :: _ => if good then .ok else .badFp
+  | afterIntegrity, .other :: rest => decodeNoKey afterIntegrity rest
+  | afterIntegrity, .useCandidate :: rest => decodeNoKey afterIntegrity rest
+  | afterIntegrity, .priority _ :: rest => decodeNoKey afterIntegrity rest
+
+/-- the STUN-server branch of `handleDatagram` + `transactionFinished`: the message carries the id of an outstanding discovery
+transaction.  Its source address is NOT compared with the server's. -/
+def reactServer (s : St) (m : Stun) : St × List Out :=
+  match decodeNoKey false m.attrs with
+  | .badMi => (s, [.warnBadMi])
+  | .badFp => (s, [.warnBadFp])
+  | .truncAttr => (s, [.warnTruncAttr])
+  | .silent => (s, [])
+  | .ok =>
+    if m.method != .binding then (s, [.accepted]) else
+    let rest := s.stunTx.filter (· != m.txid)
+    let done : List Out := if rest.isEmpty then [.gatheringComplete] else []
+    match m.cls with
+    | .request => (s, [.accepted])          -- `QXmppStunTransaction::readStun` ignores it
+    | .indication => (s, [.accepted])
+    | .error => ({ s with stunTx := rest }, .accepted :: done)
+    | .response =>
+      match m.mapped with
+      -- today's code returns early in the next two cases WITHOUT forgetting the (deleted) transaction: the model follows the
+      -- repaired behaviour (fixes/C15-stun-discovery-dangling-transaction.diff); the harness keeps these two inputs out of the
+      -- correspondence and reproduces the defect separately
+      | none => ({ s with stunTx := rest }, .accepted :: .warnNoReflexive :: done)
+      | some a =>
+        if s.localSrflx.contains a then ({ s with stunTx := rest }, .accepted :: done)
+        else ({ s with stunTx := rest, localSrflx := s.localSrflx ++ [a] }, .accepted :: .localCandidate a :: done)
+
+/-- the peer branch of `handleDatagram` (the message does not belong to a STUN-server transaction) -/
+def reactPeer (s : St) (src : Nat) (m : Stun) : St × List Out :=
+  let keyRemote := m.cls == .response || m.cls == .error
+  if keyRemote && !s.remotePwSet then (s, []) else
+  if !prescan m.attrs then (s, [.warnNoMi]) else             -- `!hasMessageIntegrity(buffer)`
+  match decodeWalk keyRemote false m.attrs with
+  | .badMi => (s, [.warnBadMi])
+  | .badFp => (s, [.warnBadFp])
+  | .truncAttr => (s, [.warnTruncAttr])
+  | .silent => (s, [])
+  | .ok =>
+    if m.method != .binding then (s, [.accepted]) else
+    match m.cls with
+    | .request => let r := handleRequest s src m.decoded; (r.1, .accepted :: r.2)
+    | .indication => (s, [.accepted])
+    | .response => let r := handleResponse s src m; (r.1, .accepted :: r.2)
+    | .error => let r := handleResponse s src m; (r.1, .accepted :: r.2)
+
 /-- `QXmppIceComponent::handleDatagram` -/
 def react (s : St) (d : Datagram) : St × List Out :=
+  if s.closed then (s, []) else               -- the sockets are closed: nothing is delivered to the component
   match d.kind with
   | .nonStun payload =>
     -- "use this as an opportunity to flag a potential pair"
@@ -348,22 +424,7 @@ def react (s : St) (d : Datagram) : St × List Out :=
       | some _ => { s with fallback := some d.src }
       | none => s
     (s1, [.appData payload])
-  | .stun m =>
-    let keyRemote := m.cls == .response || m.cls == .error
-    if keyRemote && !s.remotePwSet then (s, []) else
-    if !prescan m.attrs then (s, [.warnNoMi]) else             -- `!hasMessageIntegrity(buffer)`
-    match decodeWalk keyRemote false m.attrs with
-    | .badMi => (s, [.warnBadMi])
-    | .badFp => (s, [.warnBadFp])
-    | .truncAttr => (s, [.warnTruncAttr])
-    | .silent => (s, [])
-    | .ok =>
-      if m.method != .binding then (s, [.accepted]) else
-      match m.cls with
-      | .request => let r := handleRequest s d.src m.decoded; (r.1, .accepted :: r.2)
-      | .indication => (s, [.accepted])
-      | .response => let r := handleResponse s d.src m; (r.1, .accepted :: r.2)
-      | .error => let r := handleResponse s d.src m; (r.1, .accepted :: r.2)
+  | .stun m => if s.stunTx.contains m.txid then reactServer s m else reactPeer s d.src m
 
 /-! ### the other entry points -/
 
@@ -403,6 +464,7 @@ def connect (s : St) : St × List Out :=
 
 /-- `QXmppIceComponent::sendDatagram` -/
 def sendApp (s : St) (payload : List UInt8) : St × List Out :=
+  if s.closed then (s, [.appNoRoute]) else   -- writing to a closed socket fails
   match s.active with
   | some a => (s, [.appSent a payload])
   | none =>
@@ -410,7 +472,12 @@ def sendApp (s : St) (payload : List UInt8) : St × List Out :=
     | some f => (s, [.appSent f payload])
     | none => (s, [.appNoRoute])
 
+/-- `QXmppIceConnection::close()`: sockets closed, check timer stopped, `activePair = nullptr` -/
+def close (s : St) : St × List Out :=
+  ({ s with closed := true, active := none, timerOn := false }, [])
+
 inductive Op
+  | close
   | setRemoteCreds
   | setRemoteUser
   | setRemotePassword
@@ -424,6 +491,7 @@ inductive Op
   deriving DecidableEq, Repr
 
 def step (s : St) : Op → St × List Out
+  | .close => close s
   | .setRemoteCreds => ({ s with remoteUserSet := true, remotePwSet := true }, [])
   | .setRemoteUser => ({ s with remoteUserSet := true }, [])
   | .setRemotePassword => ({ s with remotePwSet := true }, [])
@@ -518,6 +586,9 @@ def wire (sender : St) (from_ : Nat) : Out → Option (Nat × Datagram)
   | .connectedSig => none
   | .appData _ => none
   | .appNoRoute => none
+  | .localCandidate _ => none
+  | .gatheringComplete => none
+  | .warnNoReflexive => none
 
 /-- the datagrams among `outs` that are addressed to `dest`, as they arrive there -/
 def route (sender : St) (from_ dest : Nat) : List Out → List Datagram
